@@ -18,6 +18,7 @@ type Object struct {
 	slots []Value
 	name  string
 	kind  string // "", "global", "cbuf", "rodata"
+	cwidth int   // cbuf: byte width of the C element type behind the buffer
 	typ   types.Type
 	gor   int // goroutine instance that allocated it (0 = main)
 }
